@@ -22,8 +22,9 @@
 EXTENDS PduStore, SequencesExt
 
 CONSTANTS Tscf, Udp, Fd, Count       \* configuration of the run (0/1, 0/1, 0/1, messages per packet)
-VARIABLES inq, pending, wire, outq
-tvars == <<inq, pending, wire, outq>>
+VARIABLES inq, pending, wire, outq,
+          nsent     \* packets sent so far (the talker numbers them: sequence_num, UDP encapsulation sequence)
+tvars == <<inq, pending, wire, outq, nsent>>
 
 G(m, h, v, f) == Nat16(GetSem(m, h, v, f))        \* small fields as naturals
 Id29(m, h) == SubBytes(GetSem(m, h, "Can", "can_identifier"), 4, 4)
@@ -53,19 +54,23 @@ CfOk(p) ==
   /\ G(p, CfOff, CfView, "subtype") = (IF Tscf = 1 THEN 5 ELSE 130)
   /\ G(p, CfOff, CfView, CfLenField) = Len(p) - CfOff - HdrLen[CfView]
 Decode(p) == IF CfOk(p) THEN Walk(p, CfOff + HdrLen[CfView], Len(p)) ELSE <<"bad">>
+\* the talker numbers its packets
+Numbered(p, k) == /\ G(p, CfOff, CfView, "sequence_num") = k % 256
+                  /\ (Udp = 1 => SubBytes(p, 0, 4) = SubBytes(V64(k), 4, 4))
 
-Init == inq = << >> /\ pending = << >> /\ wire = << >> /\ outq = << >>
+Init == inq = << >> /\ pending = << >> /\ wire = << >> /\ outq = << >> /\ nsent = 0
 Read(f) ==
   /\ Len(pending) < Count
-  /\ inq' = Append(inq, f) /\ pending' = Append(pending, f) /\ UNCHANGED <<wire, outq>>
+  /\ inq' = Append(inq, f) /\ pending' = Append(pending, f) /\ UNCHANGED <<wire, outq, nsent>>
 Send(p) ==
   /\ Len(pending) = Count
   /\ Decode(p) = pending                       \* the packet carries exactly the frames read, CF length right
-  /\ wire' = Append(wire, p) /\ pending' = << >> /\ UNCHANGED <<inq, outq>>
+  /\ Numbered(p, nsent)
+  /\ wire' = Append(wire, p) /\ pending' = << >> /\ nsent' = nsent + 1 /\ UNCHANGED <<inq, outq>>
 Deliver(p, fs) ==
   /\ wire # << >> /\ p = Head(wire)
   /\ fs = Decode(p)                            \* the listener wrote exactly what the packet means
-  /\ outq' = outq \o fs /\ wire' = Tail(wire) /\ UNCHANGED <<inq, pending>>
+  /\ outq' = outq \o fs /\ wire' = Tail(wire) /\ UNCHANGED <<inq, pending, nsent>>
 
 Transparent == IsPrefix(outq, inq)
 =============================================================================
